@@ -506,7 +506,7 @@ def rule_cache_barriers(ctx):
     for epath, upd in sorted(enums.items()):
         adt = prog.adt(epath)
         for b in prog.lib_bodies():
-            if b.kind == "closure" or not b.ret_ty.startswith("core::option::Option<"):
+            if b.kind == "closure" or not (b.ret_ty.startswith("core::option::Option<") or b.ret_ty == "bool"):
                 continue
             sws = []
             for sw in switch_sites(b):
@@ -517,7 +517,14 @@ def rule_cache_barriers(ctx):
                         sws.append(sw)
             if not sws:
                 continue
-            users = [(y, cs) for y in prog.lib_bodies() for cs in y.calls() if callee_of(cs) and b.path in (callee_of(cs).get("fn_args") or []) and re.search(r"Iterator::(map_while|take_while)$", callee_decl(callee_of(cs)) or "")]
+            # the function itself, or a closure that only hands its argument to it (`take_while(|e| e.is_computation())`)
+            names = {b.path}
+            for cl in prog.lib_bodies():
+                if cl.kind == "closure":
+                    ro = origins(cl, {"l": 0, "p": []}, transparent=())
+                    if ro and all(o.kind == "call" and not o.fields and prog.body_for_callee(o.data, cl) is b for o in ro):
+                        names.add(cl.path)
+            users = [(y, cs) for y in prog.lib_bodies() for cs in y.calls() if callee_of(cs) and names & set(callee_of(cs).get("fn_args") or []) and re.search(r"Iterator::(map_while|take_while)$", callee_decl(callee_of(cs)) or "")]
             if not users:
                 continue
 
